@@ -409,6 +409,34 @@ class SymBool:
     def __invert__(self):
         return SymBool(z3.Not(self.t))
 
+    # arithmetic on a bool reading (python: True == 1, False == 0) - an average or a sum over a boolean series
+    def _num(self):
+        return SymNum(z3.If(self.t, z3.RealVal(1), z3.RealVal(0)))
+
+    def __add__(self, o):
+        return self._num() + (o._num() if isinstance(o, SymBool) else o)
+
+    def __radd__(self, o):
+        return (o._num() if isinstance(o, SymBool) else o) + self._num()
+
+    def __sub__(self, o):
+        return self._num() - (o._num() if isinstance(o, SymBool) else o)
+
+    def __rsub__(self, o):
+        return (o._num() if isinstance(o, SymBool) else o) - self._num()
+
+    def __mul__(self, o):
+        return self._num() * (o._num() if isinstance(o, SymBool) else o)
+
+    def __rmul__(self, o):
+        return (o._num() if isinstance(o, SymBool) else o) * self._num()
+
+    def __truediv__(self, o):
+        return self._num() / (o._num() if isinstance(o, SymBool) else o)
+
+    def __float__(self):
+        raise Unsupported("float() of a symbolic bool outside a shimmed module")
+
     def __eq__(self, o):
         if isinstance(o, SymBool):
             return SymBool(self.t == o.t)
